@@ -16,9 +16,10 @@ use std::path::{Path, PathBuf};
 const SEC: i128 = 1_000_000_000;
 
 /// type code t in 0..9: rank = t / 3, mark = t % 3 (0: atime<mtime, 1: atime==mtime, 2: atime>mtime)
-fn times_for(t: u8, base: i128) -> (i128, i128) {
+/// `fine`: the three ranks are 0.3 s apart inside one second instead of 10 s apart
+fn times_for(t: u8, base: i128, fine: bool) -> (i128, i128) {
     let rank = (t / 3) as i128;
-    let mtime = base + rank * 10 * SEC;
+    let mtime = if fine { base.div_euclid(SEC) * SEC + 50_000_000 + rank * 300_000_000 } else { base + rank * 10 * SEC };
     let atime = match t % 3 {
         0 => mtime - 120 * SEC,
         1 => mtime,
@@ -39,11 +40,13 @@ pub struct Case {
     /// 0: raw_cache::prune; 1: plain::Cache::set with the trigger firing; 2: sharded::Cache::put into a shard;
     /// 10 + k: prune whose k-th unlink fails with EIO (the pass is interrupted), followed by a clean prune
     pub via: u8,
+    /// ranks a fraction of a second apart (a burst of writes) instead of seconds apart
+    pub fine: bool,
 }
 
 impl Case {
     pub fn to_json(&self) -> Value {
-        json!({"types": self.types, "capacity": self.capacity, "order": self.order, "strays": self.strays, "via": self.via})
+        json!({"types": self.types, "capacity": self.capacity, "order": self.order, "strays": self.strays, "via": self.via, "fine": self.fine})
     }
     pub fn from_json(v: &Value) -> Case {
         Case {
@@ -52,6 +55,7 @@ impl Case {
             order: v["order"].as_u64().unwrap() as usize,
             strays: v["strays"].as_u64().unwrap() as u8,
             via: v["via"].as_u64().unwrap() as u8,
+            fine: v["fine"].as_bool().unwrap_or(false),
         }
     }
 }
@@ -65,7 +69,7 @@ fn materialise(dir: &Path, case: &Case, base: i128) {
         std::fs::create_dir_all(dir).unwrap();
     });
     for (i, &t) in case.types.iter().enumerate() {
-        let (a, m) = times_for(t, base);
+        let (a, m) = times_for(t, base, case.fine);
         world::plant(&dir.join(fname(i)), format!("content-{}", i).as_bytes(), 0o444, a, m);
     }
     shim::passthrough(|| {
@@ -586,10 +590,12 @@ fn concurrent_check(x: &crate::sched::Execution, capacity: usize) -> Vec<(String
 
 pub fn run(tier: Tier, shard: Shard, rep: &mut Report) {
     let (seq_n, multi_n) = if tier == Tier::Quick { (5, 7) } else { (8, 12) };
+    let fine_n = if tier == Tier::Quick { 4 } else { 6 };
     rep.rule = format!(
         "populations of key-named files with rank in 3 values x read mark in {{atime<mtime, atime==mtime, atime>mtime}}: \
          (a) every rank-sorted sequence of n <= {} files with every order of marks inside equal ranks, listed sorted and \
-         reverse-sorted, x capacity 0..=n+1 x stray-subdirectory configurations, through raw_cache::prune; every 7th \
+         reverse-sorted, x capacity 0..=n+1 x stray-subdirectory configurations, through raw_cache::prune (for n <= 4, thorough 6, \
+         also with the three ranks 0.3 s apart inside one second); every 7th \
          case also through plain::Cache::set and sharded::Cache::put with the trigger scripted to fire; for n <= 4 every pass is \
          also interrupted at each of its unlinks (EIO) and followed by a clean pass, the two together judged as one pass; (b) every \
          multiset of {}..={} files x capacity 0..=n+1 x both listing orders through prune. Oracle: classical clock queue \
@@ -622,8 +628,14 @@ pub fn run(tier: Tier, shard: Shard, rep: &mut Report) {
                         continue;
                     }
                     let strays = (no % 7) as u8; // 0..6: cycles through subdir configs incl. .kismet_temp
-                    let case = Case { types: types.clone(), capacity, order, strays, via: 0 };
+                    let case = Case { types: types.clone(), capacity, order, strays, via: 0, fine: false };
                     record(&case, rep);
+                    if n <= fine_n {
+                        let mut cf = case.clone();
+                        cf.fine = true;
+                        record(&cf, rep);
+                        rep.count("subsecond_rank_cases", 1);
+                    }
                     if n <= 4 && capacity < n && order == 0 {
                         for k in 0..(n - capacity) {
                             let mut ci = case.clone();
@@ -658,7 +670,7 @@ pub fn run(tier: Tier, shard: Shard, rep: &mut Report) {
                     if !shard.mine(no) {
                         continue;
                     }
-                    let case = Case { types: types.clone(), capacity, order, strays: (no % 7) as u8, via: 0 };
+                    let case = Case { types: types.clone(), capacity, order, strays: (no % 7) as u8, via: 0, fine: false };
                     record(&case, rep);
                     if no % 50021 == 0 {
                         rep.sample(case.to_json());
@@ -670,7 +682,7 @@ pub fn run(tier: Tier, shard: Shard, rep: &mut Report) {
     rep.fact("max_n_sequences", json!(seq_n));
     rep.fact("max_n_multisets", json!(multi_n));
     if shard.index == 0 {
-        rep.sample(Case { types: vec![1, 0, 4, 8], capacity: 2, order: 0, strays: 2, via: 0 }.to_json());
+        rep.sample(Case { types: vec![1, 0, 4, 8], capacity: 2, order: 0, strays: 2, via: 0, fine: false }.to_json());
     }
     let _ = BTreeMap::<u8, u8>::new();
     let _ = PathBuf::new();
